@@ -414,10 +414,10 @@ def nud (inp : Input) (pe : Nat → PState → Except PErr (PNode × PState)) (t
     if p3.tok.type == .comma then do
       let p4 ← consume inp .comma true p3
       let (del, p5) ← pe 0 p4
-      let p6 ← consume inp .pipe true p5
+      let p6 ← consume inp .pipe false p5
       .ok (.transform pat upd (some del), p6)
     else do
-      let p4 ← consume inp .pipe true p3
+      let p4 ← consume inp .pipe false p3
       .ok (.transform pat upd none, p4)
   | _ => .error (tokErr "ErrPrefix" t)
 
@@ -447,7 +447,7 @@ def led (inp : Input) (pe : Nat → PState → Except PErr (PNode × PState)) (t
         : Except PErr (Option (List Param)))
       let p4 ← consume inp .braceOpen true p3
       let (body, p5) ← pe 0 p4
-      let p6 ← consume inp .braceClose true p5
+      let p6 ← consume inp .braceClose false p5
       .ok (.lambda names params body, p6)
     else if p.tok.type == .parenClose then do
       let p1 ← consume inp .parenClose false p
@@ -494,7 +494,7 @@ def led (inp : Input) (pe : Nat → PState → Except PErr (PNode × PState)) (t
   | .sort => do
     let p1 ← consume inp .parenOpen true p
     let (terms, p2) ← parseSortTerms inp pe (inp.size + 2) p1
-    let p3 ← consume inp .parenClose true p2
+    let p3 ← consume inp .parenClose false p2
     .ok (.sort lhs terms, p3)
   | .dot => do
     let (rhs, p1) ← pe (bp .dot) p
